@@ -1009,6 +1009,21 @@ impl InferContext {
         path: Vec<Symbol>,
         type_aliases: &TypeAliasMap,
     ) -> Option<TypeCycle> {
+        // Inside a module an alias is registered under its mangled name (`m$A`) while the types that
+        // mention it say `A`: look the name up the way alias resolution does
+        let current = if type_aliases.contains_key(&current) {
+            current
+        } else {
+            let suffix = format!("${}", current.as_str());
+            let mut candidates = type_aliases
+                .keys()
+                .copied()
+                .filter(|symbol| symbol.as_str().ends_with(&suffix));
+            match (candidates.next(), candidates.next()) {
+                (Some(only), None) => only,
+                _ => current,
+            }
+        };
         // If we've seen this type before in the current path, we have a cycle
         if let Some(cycle_start) = path.iter().position(|&s| s == current) {
             return Some(TypeCycle(path[cycle_start..].to_vec()));
